@@ -413,10 +413,143 @@ def widen(fn, du, site):
     return "both operands are widened from a type of at most half the width"
 
 
+def range_guard(fn, du, cfg, site):
+    """`x + k` / `k + x` / `x - k` where dominating comparisons bound x by literals (match on ranges, explicit tests)"""
+    if site.kind != "K3" or site.what != "Overflow":
+        return None
+    b = fn["blocks"][site.bb]
+    ops = [s for s in b["s"] if s["rv"]["k"] == "binop" and s["rv"]["op"] in ("AddWithOverflow", "Add", "SubWithOverflow", "Sub")]
+    if not ops:
+        return None
+    rv = ops[-1]["rv"]
+    w = BITS.get(rv["ty"])
+    if not w:
+        return None
+    ka, kb = _const_int(fn, du, rv["a"]), _const_int(fn, du, rv["b"])
+    if (ka is None) == (kb is None):
+        return None
+    k = ka if ka is not None else kb
+    xop = rv["b"] if ka is not None else rv["a"]
+    xl = mir.op_place(xop)
+    if xl is None or xl["p"]:
+        return None
+    lo, hi = _bounds(fn, du, cfg, xl["l"], site.bb)
+    signed = rv["ty"].startswith("i")
+    tmax = (1 << (w - 1)) - 1 if signed else (1 << w) - 1
+    tmin = -(1 << (w - 1)) if signed else 0
+    if rv["op"].startswith("Add"):
+        if hi is not None and hi + k <= tmax and (lo is not None or not signed or k >= 0):
+            return "operand bounded above by %d through dominating comparisons: %d + x cannot overflow" % (hi, k)
+    else:
+        if ka is None and lo is not None and lo - k >= tmin:
+            return "operand bounded below by %d through dominating comparisons: x - %d cannot underflow" % (lo, k)
+    return None
+
+
+def _bounds(fn, du, cfg, local, at_bb, depth=0):
+    """(lo, hi) literal bounds of a local at block at_bb, from dominating comparisons on it; follows `x = y - k` / `x = y + k`"""
+    xroot = _root_local(fn, du, local)
+    lo, hi = None, None
+    for bi, b2 in enumerate(fn["blocks"]):
+        if b2["cleanup"] or bi not in cfg.reach:
+            continue
+        for s in b2["s"]:
+            r2 = s["rv"]
+            if r2["k"] != "binop" or r2["op"] not in ("Le", "Lt", "Ge", "Gt"):
+                continue
+            ca, cb = _const_int(fn, du, r2["a"]), _const_int(fn, du, r2["b"])
+            if (ca is None) == (cb is None):
+                continue
+            var = r2["b"] if ca is not None else r2["a"]
+            vl = mir.op_place(var)
+            if vl is None or vl["p"] or _root_local(fn, du, vl["l"]) != xroot:
+                continue
+            t = b2["t"]
+            if t["k"] != "switch":
+                continue
+            dpl = mir.op_place(t["discr"])
+            if dpl is None or dpl["l"] != s["lhs"]["l"]:
+                continue
+            if not cfg.dominates(t["otherwise"], at_bb):
+                continue
+            c = ca if ca is not None else cb
+            op = r2["op"]
+            if ca is not None:   # c OP x
+                op = {"Le": "Ge", "Lt": "Gt", "Ge": "Le", "Gt": "Lt"}[op]
+            if op == "Le":
+                hi = c if hi is None else min(hi, c)
+            elif op == "Lt":
+                hi = c - 1 if hi is None else min(hi, c - 1)
+            elif op == "Ge":
+                lo = c if lo is None else max(lo, c)
+            elif op == "Gt":
+                lo = c + 1 if lo is None else max(lo, c + 1)
+    if depth < 3:
+        # x = (y -/+ k).0 : shift y's bounds
+        ds = du.defs.get(xroot, [])
+        if len(ds) == 1 and ds[0][0] == "stmt" and ds[0][3]["rv"]["k"] == "use":
+            pl = mir.op_place(ds[0][3]["rv"]["op"])
+            if pl is not None and pl["p"] and pl["p"][0][0] == "f":
+                for d2 in du.defs.get(pl["l"], []):
+                    if d2[0] == "stmt" and d2[3]["rv"]["k"] == "binop" and d2[3]["rv"]["op"] in ("SubWithOverflow", "AddWithOverflow"):
+                        r3 = d2[3]["rv"]
+                        k2 = _const_int(fn, du, r3["b"])
+                        yl = mir.op_place(r3["a"])
+                        if k2 is not None and yl is not None and not yl["p"]:
+                            ylo, yhi = _bounds(fn, du, cfg, yl["l"], d2[1], depth + 1)
+                            sh = -k2 if r3["op"].startswith("Sub") else k2
+                            if ylo is not None:
+                                lo = ylo + sh if lo is None else max(lo, ylo + sh)
+                            if yhi is not None:
+                                hi = yhi + sh if hi is None else min(hi, yhi + sh)
+    return lo, hi
+
+
+def _root_local(fn, du, l, depth=0):
+    ds = du.defs.get(l, [])
+    if depth < 6 and len(ds) == 1 and ds[0][0] == "stmt" and ds[0][3]["rv"]["k"] == "use":
+        pl = mir.op_place(ds[0][3]["rv"]["op"])
+        if pl is not None and not pl["p"]:
+            return _root_local(fn, du, pl["l"], depth + 1)
+    return l
+
+
+def position_start(fn, du, site):
+    """`s[start..]` where start is a position() inside the same slice, defaulting to its length"""
+    if site.kind != "K4" or "Index" not in site.what:
+        return None
+    t = site.term
+    if len(t["args"]) < 2:
+        return None
+    rng = mir.provenance(fn, du, t["args"][1])
+    if len(rng) != 1 or rng[0].kind != "agg" or not rng[0].rv.get("adt", "").endswith("ops::RangeFrom"):
+        return None
+    start = mir.provenance(fn, du, rng[0].rv["ops"][0])
+    if len(start) != 1 or start[0].kind != "call" or not start[0].callee.endswith("Option::<T>::unwrap_or"):
+        return None
+    ut = start[0].term
+    pos = mir.provenance(fn, du, ut["args"][0])
+    dflt = mir.provenance(fn, du, ut["args"][1])
+    if not (len(pos) == 1 and pos[0].kind == "call" and (pos[0].callee.endswith("::position") or "position" in pos[0].callee)):
+        return None
+    if not all(o.kind == "call" and o.callee.endswith("::len") or (o.kind == "const" and "int" in o.const) for o in dflt):
+        return None
+
+    def base(op):
+        return {repr(o) for o in mir.provenance(fn, du, op, transparent_extra=("core::slice::<impl [T]>::iter", "core::array::<impl [T; N]>::as_slice",
+                                                                                "core::slice::<impl [T]>::len"))}
+    recv = base(t["args"][0])
+    itr = base(pos[0].term["args"][0])
+    if recv & itr:
+        return "start is a position() within the indexed slice, defaulting to its length"
+    return None
+
+
 def try_all(fn, du, cfg, site):
     for d in (lambda: const_div(fn, du, site), lambda: const_div_overflow(fn, du, site), lambda: counter(fn, du, cfg, site),
               lambda: counter_from_zero(fn, du, cfg, site), lambda: range_full(fn, du, site), lambda: sizes_sum(fn, du, site),
-              lambda: sub_guard(fn, du, cfg, site), lambda: widen(fn, du, site), lambda: len_guard(fn, du, cfg, site),
+              lambda: sub_guard(fn, du, cfg, site), lambda: widen(fn, du, site), lambda: range_guard(fn, du, cfg, site),
+              lambda: position_start(fn, du, site), lambda: len_guard(fn, du, cfg, site),
               lambda: some_set(fn, du, cfg, site), lambda: is_some_guard(fn, du, cfg, site), lambda: infallible(fn, du, site)):
         r = d()
         if r:
